@@ -69,7 +69,7 @@ def get_member(o, k):
 
 def invalidate(rng, doc):
     """-> (kind, doc') with doc' invalid per the specification, or None"""
-    c = rng.choice(["unknown-ref", "duplicate", "missing-attr", "missing-attr", "self-cycle", "mutual-cycle"])
+    c = rng.choice(["unknown-ref", "duplicate", "missing-attr", "missing-attr", "self-cycle", "mutual-cycle", "inner-self-cycle", "inner-mutual-cycle", "union-root-cycle"])
     if c == "unknown-ref":
         ps = strs(doc)
         if not ps:
@@ -103,6 +103,18 @@ def invalidate(rng, doc):
         return c, ("obj", [("type", ("str", "record")), ("name", ("str", "S")),
                            ("fields", ("arr", [("obj", [("name", ("str", "x")), ("type", doc)]),
                                                ("obj", [("name", ("str", "s")), ("type", ("str", "S"))])]))])
+    if c in ("inner-self-cycle", "inner-mutual-cycle", "union-root-cycle"):
+        # an unconditional record cycle that does NOT go through the first / outermost record
+        def rec(name, fields):
+            return ("obj", [("type", ("str", "record")), ("name", ("str", name)),
+                            ("fields", ("arr", [("obj", [("name", ("str", fn)), ("type", ft)]) for fn, ft in fields]))])
+        if c == "inner-self-cycle":
+            inner = rec("B_", [("again", ("str", "B_"))])
+            return c, rec("Outer_", [("d", doc), ("b", inner)])
+        if c == "inner-mutual-cycle":
+            cc = rec("C_", [("b", ("str", "B_"))])
+            return c, rec("Outer_", [("d", doc), ("b", rec("B_", [("c", cc)]))])
+        return c, ("arr", [rec("A_", [("d", ("str", "int"))]), rec("B_", [("c", rec("C_", [("b", ("str", "B_"))]))])])
     if c == "mutual-cycle":
         b = ("obj", [("type", ("str", "record")), ("name", ("str", "B_")),
                      ("fields", ("arr", [("obj", [("name", ("str", "a")), ("type", ("str", "A_"))])]))])
@@ -178,7 +190,7 @@ def run(ctx):
             got = summary(pi[1])
             if want != got:
                 violations.append({"impl_case": line, "what": "attributes (names, field order, symbols, sizes, logical types) not preserved",
-                                   "document": text[:600]})
+                                   "document": text[:600], "want": want[:12], "got": got[:12]})
             if pi[4] != C.hx(D.minified(doc)):
                 violations.append({"impl_case": line, "what": "reported JSON is not the minified document"})
             if len(samples) < 5:
